@@ -1,6 +1,7 @@
 package adapt
 
 import (
+	"strings"
 	"context"
 	"errors"
 	"github.com/aws/aws-sdk-go/aws"
@@ -436,8 +437,69 @@ func (c *V1) Do(op Op) (out Outcome) {
 		}
 		return o
 	case OpBatchGet:
-		// SDK v1 adapter does not implement BatchGetItem (embedded nil interface).
-		return Outcome{Class: ClsNotImpl}
+		// the SDK v1 client of the library does not implement BatchGetItem: the call lands on the nil embedded
+		// interface and panics with a nil dereference - that is "not implemented". A client that DOES implement it
+		// is held to the same rules as the SDK v2 one.
+		in := &v1ddb.BatchGetItemInput{RequestItems: map[string]*v1ddb.KeysAndAttributes{}}
+		in.ReturnConsumedCapacity = strp(op.RetCap)
+		for _, e := range op.Gets {
+			ka := in.RequestItems[e.Table]
+			if ka == nil {
+				ka = &v1ddb.KeysAndAttributes{}
+				in.RequestItems[e.Table] = ka
+			}
+			ka.Keys = append(ka.Keys, ItemToV1(e.Del))
+			ka.AttributesToGet = v1Strs(op.AttrsToGet)
+			if op.Consistent {
+				ka.ConsistentRead = aws.Bool(true)
+			}
+			ka.ProjectionExpression = strpSet(op.Proj, op.ProjSet)
+			if op.Proj != "" {
+				ka.ExpressionAttributeNames = v1Names(op.Names)
+			}
+		}
+		var res *v1ddb.BatchGetItemOutput
+		var err error
+		notImpl := false
+		func() {
+			defer func() {
+				if r := recover(); r != nil {
+					if re, ok := r.(error); ok && strings.Contains(re.Error(), "nil pointer dereference") && PanicInPromotedMethod() {
+						notImpl = true
+						return
+					}
+					panic(r)
+				}
+			}()
+			if ctx, ok := c.ctxFor(); ok {
+				res, err = c.C.BatchGetItemWithContext(ctx, in)
+				return
+			}
+			res, err = c.C.BatchGetItem(in)
+		}()
+		if notImpl {
+			return Outcome{Class: ClsNotImpl}
+		}
+		o := fin(err)
+		if err == nil {
+			if res == nil {
+				o.RespNil = true
+				return o
+			}
+			o.Resp = map[string][]val.Item{}
+			for t, items := range res.Responses {
+				for _, it := range items {
+					o.Resp[t] = append(o.Resp[t], NormalizeEmpty(ItemFromV1(it)))
+				}
+			}
+			o.UnprocK = map[string][]val.Item{}
+			for t, ka := range res.UnprocessedKeys {
+				for _, k := range ka.Keys {
+					o.UnprocK[t] = append(o.UnprocK[t], ItemFromV1(k))
+				}
+			}
+		}
+		return o
 	case OpTransact:
 		_, err := c.callTransactWriteItems(&v1ddb.TransactWriteItemsInput{})
 		return fin(err)
